@@ -17,9 +17,6 @@ def ordInt : Ordering → Int
 /-- `cmp.Compare` on strings: byte-wise lexicographic -/
 def cmpCompare (a b : Text) : Int := if a < b then -1 else if b < a then 1 else 0
 
-/-- `CompareVersions` (its own tie is the statement-list fact `stmts_CompareVersions` of C03) -/
-def compareVersionsInt (a b : Version) : Int := ordInt (compareVersions a b)
-
 /-- `filepath.Abs` of a path that is absolute already: `Clean`, no error (the cache files of
 `cacheFileFromEtag` are absolute: `Model/Confine.lean`) -/
 def absOfAbsolute (p : Text) : Option Text := some (Path.clean p)
